@@ -66,6 +66,8 @@ def is_new_scale(I, r, w, cls=MR):
 # ---------------------------------------------------------------------------------------------------------------
 class MultiplyRates(Contract):
     name = f"{RL}.multiply_rates"
+    loop_heads = {0: 'for (i, rate) in enumerate(self.rates)',
+                  1: 'for (threshold, rate) in zip(self.thresholds, self.rates)'}
     prop = ("C09",)
     top_level = True
     cases = ("inplace", "new")
@@ -146,6 +148,8 @@ class MultiplyRates(Contract):
 
 class MultiplyThresholds(Contract):
     name = f"{RL}.multiply_thresholds"
+    loop_heads = {0: 'for (i, threshold) in enumerate(self.thresholds)',
+                  1: 'for (threshold, rate) in zip(self.thresholds, self.rates)'}
     prop = ("C09",)
     top_level = True
     cases = ("inplace", "new")
@@ -415,6 +419,7 @@ class CombineBracketSite(Contract):
 
 class AddTaxScale(Contract):
     name = f"{MR}.add_tax_scale"
+    loop_heads = {0: 'for (threshold_low, threshold_high, rate) in zip(tax_scale.thresholds[:-1], tax_scale.thresholds[1:], tax_scale.rates)'}
     prop = ("C09",)
     top_level = True
     cases = ("non-empty", "empty")
@@ -487,6 +492,7 @@ class AddTaxScale(Contract):
 
 class Inverse(Contract):
     name = f"{MR}.inverse"
+    loop_heads = {0: 'for (threshold, rate) in zip(self.thresholds, self.rates)'}
     prop = ("C09",)
     top_level = True
     descr = ("inverse of a scale starting at 0 with rates below 1: a new scale whose k-th threshold is the net amount at the k-th "
@@ -585,6 +591,7 @@ def next_k(k, p, t, x):
 
 class CombineBracket(Contract):
     name = f"{MR}.combine_bracket"
+    loop_heads = {0: 'while i <= j'}
     prop = ("C09",)
     top_level = True
     cases = ("open", "bounded")
